@@ -1,7 +1,7 @@
 (* C02 - A poll returns exactly the requested slice of the log, whichever tier holds it.
    FULL statement: every poll of every reachable state equals the slice of the abstract log
    (PartSpec.slice_offset / slice_last / slice_ts / slice_next), i.e. the model run is accepted by the monitor: *)
-From IggyV Require Import Base.Tactics Base.ListX Model.Part Model.PartSpec Proofs.PartBasics Proofs.PartHistory Proofs.PartCounts Proofs.CacheHistory Proofs.ReadExact Proofs.ReadPart Proofs.ReadHistory.
+From IggyV Require Import Base.Tactics Base.ListX Model.Part Model.PartSpec Proofs.PartBasics Proofs.PartHistory Proofs.PartCounts Proofs.CacheHistory Proofs.ReadExact Proofs.ReadPart Proofs.ReadHistory Proofs.OffsetsHistory Proofs.ExpiryBasics Proofs.ExpiryHistory.
 Open Scope N_scope.
 
 Definition C02_full : Prop :=
@@ -98,9 +98,24 @@ Proof.
   split; [apply N.leb_le; exact H1 | apply size_okb_ok; exact H2].
 Qed.
 
+(* PROVED, history level WITH message expiry: the same statement for every operation list in which a message expiry may be
+   configured and changed at will and expiry-based retention runs at arbitrary times (Proofs/ExpiryHistory.v).  Side conditions:
+   segment size > 0, offsets below 2^32, log files below 2^32 bytes, and send timestamps that are non-zero and never go
+   backwards (the times at which maintenance passes run are arbitrary). *)
+Theorem C02_offset_polls_exact_expiry : forall ops c t0, 0 < c_seg c -> times_ok 0 ops -> Forall bounds_ok (prun_states (c, part_new c t0) ops) ->
+  let c' := fst (pfinal (c, part_new c t0) ops) in let p := snd (pfinal (c, part_new c t0) ops) in
+  forall start count, 1 <= count -> start <= p_cur p ->
+  let lo := N.max start (first_start p) in
+  poll_offset c' p start count = filter (in_range lo (lo + (count - 1))) (part_all p).
+Proof.
+  intros ops c t0 Hseg Ht Hb. cbn zeta. intros start count Hcount Hstart. destruct (history_E0 ops c t0 Hseg Ht Hb) as [HE _].
+  apply poll_offset_exact; [exact (e_R _ _ _ HE) | exact Hcount | exact Hstart].
+Qed.
+
 Print Assumptions C02_read_sound_partial.
 Print Assumptions C02_disk_sound_partial.
 Print Assumptions C02_cache_tier_exact_partial.
 Print Assumptions C02_offset_polls_exact.
 Print Assumptions C02_first_last_next_exact.
 Print Assumptions C02_offset_polls_nonvacuous.
+Print Assumptions C02_offset_polls_exact_expiry.
